@@ -172,7 +172,28 @@ def val(c):
 class X:
     """Exact scalar.  Wraps an algebra value; mixes with Python/numpy numbers."""
     __slots__ = ("v",)
-    __array_ufunc__ = None   # numpy scalars / arrays defer to our reflected operators
+
+    def __array_ufunc__(self, ufunc, method, *inputs, out=None, **kw):
+        # numpy array (op) X, including in-place forms: run the ufunc on object arrays so that every
+        # cell operation dispatches to X's Python operators
+        if method != "__call__":
+            return NotImplemented
+        ins = []
+        for i in inputs:
+            if isinstance(i, X):
+                a = _np.empty((), dtype=object)
+                a[()] = i
+                ins.append(a)
+            elif isinstance(i, _np.ndarray) and i.dtype != object:
+                ins.append(i.astype(object))
+            else:
+                ins.append(i)
+        if out is not None:
+            kw["out"] = out
+        r = ufunc(*ins, **kw)
+        if isinstance(r, _np.ndarray) and r.ndim == 0 and out is None:
+            return r[()]
+        return r
 
     def __init__(self, v):
         self.v = v.v if isinstance(v, X) else v
@@ -367,7 +388,20 @@ class _DType:
 def _real_dtype(d):
     if isinstance(d, _DType):
         return d.dtype
+    if d is xfloat:
+        return float
     return d
+
+
+def _passthrough(obj):
+    def w(*a, **k):
+        if "dtype" in k:
+            k["dtype"] = _real_dtype(k["dtype"])
+        if any(isinstance(x, _DType) or x is xfloat for x in a):
+            a = tuple(_real_dtype(x) if (isinstance(x, _DType) or x is xfloat) else x for x in a)
+        return obj(*a, **k)
+    w.__name__ = getattr(obj, "__name__", "np_passthrough")
+    return w
 
 
 def _inexact(dtype):
@@ -419,7 +453,12 @@ class _NPX(_types.ModuleType):
             object.__setattr__(self, nm, _DType(getattr(_np, nm)))
 
     def __getattr__(self, name):
-        return getattr(_np, name)
+        obj = getattr(_np, name)
+        if callable(obj) and not isinstance(obj, type):
+            return _passthrough(obj)
+        if name in ("finfo", "iinfo"):
+            return _passthrough(obj)
+        return obj
 
     # ---- creation ---------------------------------------------------------
     def zeros(self, shape, dtype=None, **k):
@@ -531,6 +570,12 @@ class _NPX(_types.ModuleType):
 
     def hypot(self, x, y):
         if _symbolic(x, y):
+            if isinstance(x, _np.ndarray) or isinstance(y, _np.ndarray):
+                xa, ya = _np.broadcast_arrays(_to_obj(x), _to_obj(y))
+                out = _np.empty(xa.shape, dtype=object)
+                for idx in _np.ndindex(xa.shape):
+                    out[idx] = X(STATE.alg.sqrt(val(xa[idx]) ** 2 + val(ya[idx]) ** 2))
+                return out
             return X(STATE.alg.sqrt(val(x) ** 2 + val(y) ** 2))
         return _np.hypot(x, y)
 
@@ -591,14 +636,23 @@ class _NPX(_types.ModuleType):
             return _np.dot(_to_obj(a), _to_obj(b))
         return _np.dot(a, b) if out is None else _np.dot(a, b, out=out)
 
+    def _elementwise2(self, a, b, f):
+        if isinstance(a, _np.ndarray) or isinstance(b, _np.ndarray):
+            xa, ya = _np.broadcast_arrays(_to_obj(a), _to_obj(b))
+            out = _np.empty(xa.shape, dtype=object)
+            for idx in _np.ndindex(xa.shape):
+                out[idx] = f(xa[idx], ya[idx])
+            return out
+        return f(a, b)
+
     def maximum(self, a, b):
         if _symbolic(a, b):
-            return a if X(val(a)) >= b else b
+            return self._elementwise2(a, b, lambda p, q: X(val(p)) if X(val(p)) >= q else X(val(q)))
         return _np.maximum(a, b)
 
     def minimum(self, a, b):
         if _symbolic(a, b):
-            return a if X(val(a)) <= b else b
+            return self._elementwise2(a, b, lambda p, q: X(val(p)) if X(val(p)) <= q else X(val(q)))
         return _np.minimum(a, b)
 
     def clip(self, a, lo, hi, **k):
